@@ -11,5 +11,5 @@ run_one() {
 }
 export -f run_one; export TIER
 : > seeded/MATRIX2.tmp
-printf "%s\n" "$@" | xargs -P 4 -I{} bash -c 'run_one {}'
+printf "%s\n" "$@" | xargs -P ${PAR:-4} -I{} bash -c 'run_one {}'
 sort seeded/MATRIX2.tmp
